@@ -2621,7 +2621,9 @@ class AggregateBase(UnitsManaged, Saveable, OpenSystem):
             for i in range(start, dim):
                 ens[i-start] = numpy.real(HH[i,i] - subtract[i-start])
 
-            ne = numpy.exp(-ens/kBT)
+            # energies are counted from the lowest one: the largest Boltzmann
+            # factor is then exactly 1 and the sum cannot underflow to zero
+            ne = numpy.exp(-(ens - numpy.amin(ens))/kBT)
             sne = numpy.sum(ne)
             rho0_diag = ne/sne
             rho0[start:,start:] = numpy.diag(rho0_diag)
